@@ -78,6 +78,16 @@ def _lh_traces(ck, wd, exe, sf, nsys, tier, seed):
     ck.cov["lawson_hanson_partially_constrained_counterexample_found"] = rf.violated == "Inv"
     if rf.violated != "Inv":
         raise vlib.Infra("MC_LawsonHanson_free.cfg no longer violates Inv: the Optimal invariant may be vacuous (or the model of the start of the algorithm changed)")
+    # nnls_normal_block (block principal pivoting with Murty fallback and a 3n iteration limit): model-checked transcription;
+    # bound to the code at result level only (no hook), by the replay of the same catalogue above
+    rb = vlib.run_tlc("MC_BlockPivot", "MC_BlockPivot_quick.cfg" if tier == "quick" else "MC_BlockPivot.cfg", tag="mcbp", timeout=3300, xmx="10g")
+    if rb.rc != 0 or rb.violated:
+        raise vlib.Infra("MC_BlockPivot did not model-check cleanly: %s\n%s" % (rb.violated, rb.out[-2000:]))
+    ck.add_tlc("MC_BlockPivot (%s)" % ("n <= 2, wide catalogue" if tier == "quick" else "n <= 3"), rb)
+    rs = vlib.run_tlc("MC_BlockPivot", "MC_BlockPivot_short.cfg", tag="mcbps", timeout=900, xmx="6g")
+    ck.cov["block_pivot_iteration_limit_n_counterexample_found"] = rs.violated == "Inv"
+    if rs.violated != "Inv":
+        raise vlib.Infra("MC_BlockPivot_short.cfg (iteration limit n instead of 3n) no longer violates Inv: CapNeverHit may be vacuous")
     stride = 8 if tier == "quick" else max(1, -(-nsys // 60000))
     tr = os.path.join(wd, "lh.ndjson")
     rc, so, err, _ = vlib.run_driver(exe, ["tracelh", sf, str(stride), str(seed % stride), tr], timeout=1500, env={"OMP_NUM_THREADS": "2"})
